@@ -488,6 +488,8 @@ def bit3(ctx):
         if t[0] == "sub":
             only = {x: 1 if x == t[1] else 0 for x in pm.subs}
             pshapes.append((_shape_name(only), opt(1, pm.word_of(only)), only))
+        if getattr(ctx, "tier", "quick") == "thorough":
+            pshapes = list(starts)          # thorough: two-bit masks on every one of the 16 place shapes
         for sname, w0, sh in pshapes:
             present = t[0] == "byte" or sh[t[1]] == 1
             aname = t[1]
